@@ -431,3 +431,21 @@ def budget_failure(T, waits, lockwaits, selans, lockans, outcome_code, what, dt=
         if full:
             return f"{what}: TimeoutError after only {dt} of T={T} ticks although no wait was cut short (early timeout)"
     return None
+
+
+def event_failure(waits, blocks, what):
+    """Which readiness event each would-block waits for: every selector wait registers the event asked for by the
+    would-block answer that caused it (1 = writable, 0 = readable).  A would-block that meets an exhausted timeout causes no
+    wait, so the waits must be a subsequence, in order, of the would-block answers."""
+    events = [w[0] for w in waits]
+    j = 0
+    for i, ev in enumerate(events):
+        while j < len(blocks) and blocks[j] != ev:
+            j += 1
+        if j >= len(blocks):
+            name = {1: "WRITABILITY", 0: "READABILITY"}
+            return (f"{what}: wait #{i} polls the socket for {name[ev]} although no remaining would-block asked for it "
+                    f"(would-blocks: {['write' if b else 'read' for b in blocks]}): the call cannot make progress when the "
+                    "awaited event never comes")
+        j += 1
+    return None
